@@ -13,7 +13,7 @@ STUBBED = ("nothing in the system under simulation; the PRNG is the seeded facad
 
 def plan_runs(prop, tier, master_seed, counts, families=None, events=None, vary=True):
     """counts / events: dict tier -> int."""
-    names = families or list(gen.FAMILIES)
+    names = families or [name for name, spec in gen.FAMILIES.items() if not spec.get("special")]
     tasks = []
     for index in range(counts[tier]):
         rng = random.Random(derive_seed(master_seed, prop, index))
